@@ -45,8 +45,9 @@ async def run_history(root, rnd):
         with lib.quiet():
             s = await r.snapshot(paths=[src], note=f'note {i}' if i % 2 else None)
         snaps.append((s.name, {str((src / n).resolve()): v for n, v in current.items()}))
-    snap_filters = [None, '^' + snaps[-1][0] + '$', '^' + snaps[0][0] + '$', '|'.join(s[0][:12] for s in snaps[:2]), 'zzzz']
-    file_filters = [None, r'\.txt$', 'sub/', 'b\\.bin|d$', 'nomatch']
+    snap_filters = [None, '^' + snaps[-1][0] + '$', '^' + snaps[0][0] + '$', '|'.join(s[0][:12] for s in snaps[:2]), 'zzzz',
+                    snaps[-1][0][:16].upper() if snaps[-1][0][:16].upper() != snaps[-1][0][:16] else 'Z']
+    file_filters = [None, r'\.txt$', 'sub/', 'b\\.bin|d$', 'nomatch', r'\.TXT$|SUB/D']
     for sf in snap_filters:
         for ff in file_filters:
             out = root / 'out'
